@@ -13,7 +13,7 @@ import (
 func init() {
 	register(&propDef{
 		id: "C07", level: "other", run: runC07,
-		explanation: "Decided: shape-level encodability of everything the decoder can produce, as a triaged census. (R1) every origin of a non-nil error in the functions reachable from Encode is enumerated from SSA and classified by the condition that guards it: a write into the encoder's own bytes.Buffer (cannot fail), a hash write (cannot fail), the caller's io.Writer (propagated; allowed), an accessor/file-type mismatch (impossible for a File whose init succeeded, C03-4/5), or a table condition (not a string / array of strings / unknown kind) that is false for every field of every message type a container or the File hosts; the UTF-8 check of encodeString cannot be discharged because the decoder's string arms establish no UTF-8 invariant (known finding). (R2) every potential panic site of the same functions (explicit panic, non-comma-ok type assertion, dynamic slice bound, nil field pointer, reflect accessors) is enumerated and discharged by a named C15 obligation or reported. (R3) invalid omission: getEncodeMesgDef compares each field with the field of the same index of the all-invalid message of the same number. (R4) expansion is order-safe for a second decode: every expansion depends only on its own source's validity and a destination that is itself a source is filled before its components are taken. (R5) every visited message is written: encodeDefAndDataMesg succeeds only behind writeMesg or for a nil pointer, encodeFile's list loop writes on every path round the loop and is left only by its header test or an error, and the definition lists the profile's own rows. NOT decided: that the re-decoded content is equal, the fixpoint of a second round trip, nil elements placed in containers through the public API. The record-layout rules (C05-R3-def-layout/-header-bytes) and C05-R3-no-silent-skip run here as well: what Encode writes is what Decode reads back. (R2-nil) no nil dereference on Encode's scope (origin-based analysis with local-cell, captured-variable and pointer-collection disciplines); methods of message types reachable from Encode (incl. through reflection-fed interface calls) do not write their receiver; C03-6-message-flows runs here too.",
+		explanation: "Decided: shape-level encodability of everything the decoder can produce, as a triaged census. (R1) every origin of a non-nil error in the functions reachable from Encode is enumerated from SSA and classified by the condition that guards it: a write into the encoder's own bytes.Buffer (cannot fail), a hash write (cannot fail), the caller's io.Writer (propagated; allowed), an accessor/file-type mismatch (impossible for a File whose init succeeded, C03-4/5), or a table condition (not a string / array of strings / unknown kind) that is false for every field of every message type a container or the File hosts; the UTF-8 check of encodeString cannot be discharged because the decoder's string arms establish no UTF-8 invariant (known finding). (R2) every potential panic site of the same functions (explicit panic, non-comma-ok type assertion, dynamic slice bound, nil field pointer, reflect accessors) is enumerated and discharged by a named C15 obligation or reported. (R3) invalid omission: getEncodeMesgDef compares each field with the field of the same index of the all-invalid message of the same number. (R4) expansion is order-safe for a second decode: every expansion depends only on its own source's validity and a destination that is itself a source is filled before its components are taken. (R5) every visited message is written: encodeDefAndDataMesg succeeds only behind writeMesg or for a nil pointer, encodeFile's list loop writes on every path round the loop and is left only by its header test or an error, and the definition lists the profile's own rows. NOT decided: that the re-decoded content is equal, the fixpoint of a second round trip, nil elements placed in containers through the public API. The record-layout rules (C05-R3-def-layout/-header-bytes) and C05-R3-no-silent-skip run here as well: what Encode writes is what Decode reads back. (R2-nil) no nil dereference on Encode's scope (origin-based analysis with local-cell, captured-variable and pointer-collection disciplines); methods of message types reachable from Encode (incl. through reflection-fed interface calls) do not write their receiver; C03-6-message-flows runs here too. (R4, third condition) an accumulated destination must not depend on state that outlives the decode: a package-level accumulator with a non-zero mask makes the decode of Encode's output continue the first decode's running sum (known finding: accumuDistance).",
 		trusted:     []string{"bytes.Buffer writes and hash.Hash writes never return an error", "C15 (tables agree with struct types) and C03 (file-type pairing)", "documented reflect panic conditions"},
 	})
 }
@@ -605,6 +605,36 @@ func c07ExpansionIdempotent(c *Ctx, r *Report) {
 		if strings.Contains(o.Detail, "else branch of the guard") || strings.Contains(o.Detail, "after the components of") {
 			bad++
 			r.fail("C07-R4-expansion-idempotent", o.Key, o.Pos, o.Detail+" — a decode/Encode/decode round trip then differs from the first decode (the destination is written out and read back, and the expansion takes the other branch)")
+		}
+	}
+	// third condition: an accumulated destination must not depend on state that outlives the decode:
+	// with a package-level accumulator the decode of Encode's output continues from where the first
+	// decode stopped, so the accumulated values of the re-decoded File differ from the File that was
+	// encoded. (An accumulator built with new(uint32Accumulator) has mask 0 and always yields 0: that
+	// is C18's finding, and idempotent.)
+	for _, g := range c.ssaPkgs[modPath].Members {
+		gv, ok := g.(*ssa.Global)
+		if !ok || !strings.HasSuffix(gv.Type().String(), ".uint32Accumulator") {
+			continue
+		}
+		masked := false
+		for _, fn := range c.moduleFuncs() {
+			for _, b := range fn.Blocks {
+				for _, ins := range b.Instrs {
+					st, ok := ins.(*ssa.Store)
+					if !ok || st.Addr != ssa.Value(gv) {
+						continue
+					}
+					if call, ok := st.Val.(*ssa.Call); ok && call.Common().StaticCallee() != nil && call.Common().StaticCallee().Name() == "uint32NewAccumulator" {
+						masked = true
+					}
+				}
+			}
+		}
+		if masked {
+			r.fail("C07-R4-expansion-idempotent", "fit."+gv.Name(), c.pos(gv.Pos()), "accumulator "+gv.Name()+" is a package-level variable that is never reset: decoding Encode's output continues the running sum of the first decode, so the accumulated field of the re-decoded File differs from the File that was encoded")
+		} else {
+			r.ok("C07-R4-expansion-idempotent", "fit."+gv.Name(), c.pos(gv.Pos()), "package-level, but built with mask 0: always yields 0 (C18-R3-accumulator-width), the same on every decode")
 		}
 	}
 	r.check(bad == 0 && n >= 8, "C07-R4-expansion-idempotent", "scan", "", fmt.Sprintf("%d expandComponents bodies: every expansion depends only on its own source's validity and destinations that are sources are filled first", n), "expansion order/guard clauses violated (see above)")
